@@ -518,6 +518,21 @@ def body_hirshfeld(case, ctx):
     good = rmax_ok & (tot > 0) & np.isfinite(tol) & (tol < 1e-6)
     if not np.all(good):
         ctx.cls("some-points-ill-conditioned")
+    # "sum to one" needs no reference density: it must hold at EVERY point where the library returns finite weights,
+    # also far outside the region where the share itself can be compared
+    hw0 = HirshfeldWeights()
+    tot_all, abs_all = np.zeros(n), np.zeros(n)
+    for a in range(m):
+        ia = np.zeros(m + 1, dtype=int)
+        ia[a + 1 :] = n
+        wa_ = hw0(pts, at, atnums, ia)
+        tot_all += wa_
+        abs_all += np.abs(wa_)
+    fin = np.isfinite(tot_all)
+    if np.any(fin):
+        # error model: each weight rho_A/S carries a relative rounding error, so the sum deviates from 1 by at most
+        # ~eps * sum_A |w_A| (large only where the extrapolated pro-atom splines change sign and S nearly cancels)
+        ctx.close(tot_all[fin], np.ones(int(fin.sum())), (256.0 * m * EPS * abs_all + 1e-12)[fin], "hirshfeld-sum-anywhere", f"sum over {m} atoms at all {int(fin.sum())} points with finite weights (box {case['box']})")
     if not np.any(good):
         ctx.skip("every point ill-conditioned (promolecular density ~ 0)")
         return
@@ -543,7 +558,7 @@ def hirshfeld_strategy():
                 "atnums": st.lists(st.sampled_from(_HIRSH_Z), min_size=m, max_size=m),
                 "xyz": st.lists(st.lists(st.floats(-3.0, 3.0), min_size=3, max_size=3), min_size=m, max_size=m),
                 "nbox": st.integers(2, 60),
-                "box": st.sampled_from([1.0, 3.0, 8.0]),
+                "box": st.sampled_from([1.0, 3.0, 8.0, 8.0, 30.0, 100.0]),
                 "nuclei": st.booleans(),
                 "cuts": st.lists(st.floats(0.0, 1.0), min_size=m - 1, max_size=m - 1),
                 "dseed": st.integers(0, 2**31 - 1),
